@@ -292,7 +292,14 @@ def v1_hasher(ctx):
     if len(wl) != 1:
         ctx.undecided("C01.6", hp, "stitching loop not found")
     elif arr is None:
-        ctx.violated("C01.6", hp, "stitching loop condition is `%s`: must be `len(piece) < piece_length and next_file()` in that order (else a file is opened and skipped when the piece is already full)" % norm(wl[0].test), wl[0].test)
+        atoms_ = C.atoms_of(wl[0].test)
+        bounded = [a for a in atoms_ if isinstance(a, ast.Compare) and len(a.ops) == 1 and isinstance(a.ops[0], (ast.Lt, ast.Gt, ast.LtE, ast.GtE, ast.NotEq)) and PL in (norm(a.left), norm(a.comparators[0]))]
+        nf_at = [i for i, a in enumerate(atoms_) if norm(a).endswith("next_file()")]
+        if bounded and nf_at and isinstance(wl[0].test, ast.BoolOp) and isinstance(wl[0].test.op, ast.And) and atoms_.index(bounded[0]) < nf_at[0]:
+            # another way of tracking how much of the piece is filled (a fill counter instead of len()): not modelled
+            ctx.undecided("C01.6", hp, "stitching loop `%s` tracks the filled part of the piece in a way the extractor does not model" % norm(wl[0].test), wl[0].test)
+        else:
+            ctx.violated("C01.6", hp, "stitching loop condition is `%s`: must be `len(piece) < piece_length and next_file()` in that order (else a file is opened and skipped when the piece is already full)" % norm(wl[0].test), wl[0].test)
     else:
         # the piece being stitched starts as exactly the bytes read: the parameter (handed buf[:n], judged by the slice
         # discipline at the call) or a local defined as p[:s] from the (buffer, count) parameters
@@ -466,6 +473,10 @@ def _buffer_uses(ctx, rid, fn, g, buf, sz, rn, skip, cap, fresh, depth):
         if un is None or un not in reach or un is rn:
             continue
         if isinstance(par, ast.Call) and isinstance(par.func, ast.Name) and par.func.id == "len":
+            continue
+        if isinstance(par, ast.Call) and isinstance(par.func, ast.Name) and par.func.id == "memoryview":
+            sites += 1
+            ctx.undecided(rid, fn, "buffer %r is aliased through memoryview(); what is read from or written through the view is not tracked" % buf, par)
             continue
         sites += 1
         if isinstance(par, ast.Subscript) and isinstance(par.slice, ast.Slice) and par.slice.lower is None and norm(par.slice.upper) == sz:
